@@ -1064,6 +1064,103 @@ func genProvCases(g *hx.Gen) {
 	g.Note(fmt.Sprintf("provenance mode: %d histories starting from NewDense with arbitrary non-zero bytes, ChromaticIndex's array, ComplementDense, Graph6Decode/Sparse6Decode results, NewSparse with unsorted repeated lists, Copy and InducedSubgraph of those, edited-down graphs", count))
 }
 
+// nearSorted returns l distinct vertices below n in a nearly sorted order: ascending with one
+// element (disp, if it is >= 0 and below n it is made a member) moved to the end / to the front /
+// into the middle, two adjacent entries swapped, descending, rotated by one, or exactly sorted.
+func nearSorted(r *hx.Rng, n, l, disp, variant int) []int {
+	p := r.Perm(n)[:l]
+	has := false
+	for _, x := range p {
+		if x == disp {
+			has = true
+		}
+	}
+	if disp >= 0 && disp < n && !has {
+		p[0] = disp
+	}
+	for i := 1; i < len(p); i++ { // ascending
+		for j := i; j > 0 && p[j-1] > p[j]; j-- {
+			p[j-1], p[j] = p[j], p[j-1]
+		}
+	}
+	at := r.Intn(l)
+	for i, x := range p {
+		if x == disp {
+			at = i
+		}
+	}
+	move := func(to int) {
+		x := p[at]
+		rest := append(append([]int{}, p[:at]...), p[at+1:]...)
+		p = append(append(append([]int{}, rest[:to]...), x), rest[to:]...)
+	}
+	switch variant % 7 {
+	case 0:
+		if at == l-1 && l > 1 { // already last: displace the first instead
+			at = 0
+		}
+		move(l - 1)
+	case 1:
+		if at == 0 && l > 1 {
+			at = l - 1
+		}
+		move(0)
+	case 2:
+		move(r.Intn(l))
+	case 3:
+		if l > 1 {
+			i := min(at, l-2)
+			p[i], p[i+1] = p[i+1], p[i]
+		}
+	case 4:
+		for i, j := 0, l-1; i < j; i, j = i+1, j-1 {
+			p[i], p[j] = p[j], p[i]
+		}
+	case 5:
+		p = append(p[1:], p[0])
+	}
+	return p
+}
+
+// genNearSortedCases: InducedSubgraph with long vertex lists (15..n entries, n up to 80) in nearly
+// sorted orders, the displaced vertex being a hub with many neighbours inside V.
+func genNearSortedCases(g *hx.Gen) {
+	r := g.Rng
+	count := g.Pick(21, 700)
+	for c := 0; c < count; c++ {
+		n0 := r.Range(20, 44)
+		if c%7 == 6 {
+			n0 = r.Range(60, 80)
+		}
+		var toks []tok
+		hub := r.Intn(n0)
+		for i := 0; i < n0; i++ {
+			toks = append(toks, tok{'e', 0, []int{r.Intn(n0), r.Intn(n0)}})
+		}
+		for _, u := range r.Perm(n0)[:n0/2] {
+			toks = append(toks, tok{'e', 0, []int{hub, u}})
+		}
+		lens := []int{15, 16, 17, 18, 31, 32, 33, 34, 63, 64, 65, n0 - 1, n0}
+		reps := 4
+		if n0 >= 60 {
+			reps = 3
+		}
+		for k := 0; k < reps; k++ {
+			l := lens[r.Intn(len(lens))]
+			if l > n0 || r.Chance(1, 4) {
+				l = r.Range(17, n0)
+			}
+			disp := hub
+			if r.Chance(1, 4) {
+				disp = -1
+			}
+			toks = append(toks, tok{'s', 0, nearSorted(r, n0, l, disp, c+k)})
+		}
+		g.Emit(caseLineL(n0, toks))
+	}
+	g.Note(fmt.Sprintf("large mode: %d histories with InducedSubgraph on 15..80 vertices in nearly sorted orders (last/first/middle element displaced, adjacent swap, descending, rotated, sorted)", count))
+}
+
 // genHugeCases: the size dimension beyond what the extracted model can follow (see huge.go):
 // hubs and argument lists of length 127..129, 255..257, 511..513.
 func genHugeCases(g *hx.Gen) {
@@ -1226,6 +1323,7 @@ func gen(g *hx.Gen) {
 	}
 	genLargeCases(g)
 	genProvCases(g)
+	genNearSortedCases(g)
 	genHugeCases(g)
 	genQuietCases(g)
 	genStaleCases(g)
